@@ -70,6 +70,11 @@ def prepare(ctx, d: Path):
         "suit-parameter-image-digest": {"suit-digest-algorithm-id": "cose-alg-sha-256", "suit-digest-bytes": {"envelope": str(d / "child.suit")}}}}]
     e2["suit-integrated-dependencies"] = {"#dep": str(d / "child.suit"), "#inline": child_desc}
     (d / "d2.yaml").write_text(yaml.dump(d2, sort_keys=False))
+    # an envelope with several integrated payloads at two levels (cache generation from an envelope)
+    from .c11_extract import make_env
+    inner = make_env(ctx, d, ctx.rng, 901, [(f"#q{i}", envgen.blob(10 + i, 70 + i)) for i in range(4)], [])
+    multi = make_env(ctx, d, ctx.rng, 902, [(f"#p{i}", envgen.blob(20 + i, 80 + i)) for i in range(6)], [("#dep_a", inner)])
+    (d / "multi.suit").write_bytes(multi)
     keys = signrun.Keys(d / "keys")
     (d / "keys" / "fwenc.bin").write_bytes(os.urandom(32))
     return keys
@@ -118,7 +123,8 @@ def run(ctx: core.Check):
     scheds = g.tagged("SCN")
     ctx.rng.shuffle(scheds)
     extra = [["sign", "create1", "sign", "encrypt"], ["encrypt", "touch_fw", "encrypt", "sign"], ["mpi", "update", "mpi", "boot"],
-             ["update", "chdir", "update", "mpi"], ["create1", "touch_fw", "create1json", "reuse1"], ["cache", "touch_fw", "cache", "create2"]]
+             ["update", "chdir", "update", "mpi"], ["create1", "touch_fw", "create1json", "reuse1"], ["cache", "touch_fw", "cache", "create2"],
+             ["cachenv", "create1", "cachenv2", "cachenv"], ["parse", "cachenv2", "chdir", "cachenv"]]
     per_seed = 40 if ctx.quick else 700
     d = ctx.tmp("c18")
     keys = prepare(ctx, d)
@@ -129,7 +135,7 @@ def run(ctx: core.Check):
     ref_jobs = []
     for op in ("create1", "create1json", "reuse1", "create2", "cache", "encrypt"):
         ref_jobs += [(op, 1, [[op]]), (op, 2, [["touch_fw", op]])]
-    for op in ("parse", "boot", "update", "mpi", "sign"):
+    for op in ("parse", "boot", "update", "mpi", "sign", "cachenv", "cachenv2"):
         ref_jobs.append((op, 1, [[op]]))
     ctx.note(f"Use C: {len(ref_jobs) * len(seeds)} fresh-interpreter references")
 
